@@ -162,6 +162,9 @@ struct Ctx
   bool norm_is_tof = false;
   int prior_kind = 0;
   double beta = 0;
+  double image_zero_frac = 0, add_zero_frac = 0; // fractions of exact zeros in the image / the additive term
+  bool norm_wide = false;                        // the norm data have more segments than the emission data
+  int data_mode = 0;                             // 0 model data, 1 all zero, 2 whole viewgrams zero, 3 one non-zero bin
   // data, per bin of P (values are exactly the floats handed to STIR)
   std::vector<double> y, a, n;
   std::vector<char> z;        // 1: bin zeroed by zero_seg0_end_planes
@@ -656,7 +659,10 @@ build_ctx(const json& c, Ctx& x, const Ctx* donor = nullptr, const bool sticky_t
 
   // --- images
   const std::size_t nv = std::size_t(x.nvox());
-  x.lam = rand_vec(nv, c["image_seed"].get<uint64_t>(), 0.1, 3.);
+  // "any non-negative image": a fraction of the voxels (also all of them) is EXACTLY 0 ("image_zero_frac", default 0:
+  // the strictly positive images of the saved cases; rand_vec draws the same numbers for the other voxels)
+  x.image_zero_frac = c.value("image_zero_frac", 0.);
+  x.lam = rand_vec(nv, c["image_seed"].get<uint64_t>(), 0.1, 3., x.image_zero_frac);
   x.v = rand_vec(nv, c["dir_seed"].get<uint64_t>(), 0.05, 2., c["dir_zero_frac"].get<double>());
   x.out0 = rand_vec(nv, c["dir_seed"].get<uint64_t>() ^ 0x5555, -1., 1.);
   x.lam_im = vec_to_image(x, x.lam);
@@ -668,8 +674,41 @@ build_ctx(const json& c, Ctx& x, const Ctx* donor = nullptr, const bool sticky_t
   // --- normalisation data d (apply multiplies by d, undo divides: efficiency n = 1/d), additive term
   shared_ptr<const ExamInfo> exam = pet_exam_info();
   x.n.assign(nb, 1.);
+  // BinNormalisationFromProjData::set_up accepts norm data that are "larger" than the emission data ("Check if the emission
+  // data is 'smaller' than the norm data (e.g. fewer segments)": same tangential and axial ranges, more segments).
+  // "norm_wide" (default false): when the emission data had their segment range trimmed, the norm data keep ALL segments.
+  shared_ptr<ProjDataInfo> wide_pdi;
+  if (c.value("norm_wide", false) && x.norm_kind > 0 && c["pdi"]["trim"].contains("max_seg"))
+    {
+      json jw = c["pdi"];
+      jw["trim"]["max_seg"] = 99;
+      jw["trim"].erase("min_seg");
+      shared_ptr<ProjDataInfo> w = vg::make_pdi(x.sc, jw);
+      if (w->get_max_segment_num() > x.pdi->get_max_segment_num() || w->get_min_segment_num() < x.pdi->get_min_segment_num())
+        {
+          wide_pdi = (x.norm_is_tof || !x.tof) ? w : w->create_non_tof_clone();
+          x.norm_wide = true;
+        }
+    }
   auto make_norm_data = [&](uint64_t seed, double lo, double hi, shared_ptr<ProjDataInMemory>& pd) {
-    if (x.norm_is_tof || !x.tof)
+    if (wide_pdi)
+      {
+        const bool norm_tof = wide_pdi->is_tof_data();
+        pd.reset(new ProjDataInMemory(exam, wide_pdi, false));
+        vp::ExplicitP Q; // only used for its bin enumeration / conversion helpers
+        Q.pdi = wide_pdi;
+        vp::ExplicitP::enumerate_bins(*wide_pdi, Q.bins);
+        const std::vector<double> d = rand_vec(Q.bins.size(), seed, lo, hi);
+        Q.vec_to_projdata(*pd, d);
+        for (std::size_t b = 0; b < nb; ++b)
+          {
+            Bin nb0 = x.P.bins[b];
+            if (!norm_tof)
+              nb0.timing_pos_num() = 0;
+            x.n[b] *= double(1.F / float(d[std::size_t(Q.bin_index(nb0))]));
+          }
+      }
+    else if (x.norm_is_tof || !x.tof)
       {
         const std::vector<double> d = rand_vec(nb, seed, lo, hi);
         pd.reset(new ProjDataInMemory(exam, x.pdi, false));
@@ -718,7 +757,10 @@ build_ctx(const json& c, Ctx& x, const Ctx* donor = nullptr, const bool sticky_t
   x.a.assign(nb, 0.);
   if (x.additive)
     {
-      x.a = rand_vec(nb, c["add_seed"].get<uint64_t>(), 0.1 * c["add_scale"].get<double>(), 2. * c["add_scale"].get<double>());
+      // "any ... additive term" (non-negative): a fraction of its bins (also all of them: an additive term that is
+      // present but zero) is EXACTLY 0 ("add_zero_frac", default 0)
+      x.add_zero_frac = c.value("add_zero_frac", 0.);
+      x.a = rand_vec(nb, c["add_seed"].get<uint64_t>(), 0.1 * c["add_scale"].get<double>(), 2. * c["add_scale"].get<double>(), x.add_zero_frac);
       x.a_pd.reset(new ProjDataInMemory(exam, x.pdi, false));
       x.P.vec_to_projdata(*x.a_pd, x.a);
     }
@@ -743,6 +785,36 @@ build_ctx(const json& c, Ctx& x, const Ctx* donor = nullptr, const bool sticky_t
               yy = std::floor(ybar * 3e4) + 7.; // large quotient
           }
         x.y[b] = double(float(std::min(yy, 1e5)));
+      }
+    // "any ... measured data": degenerate data ("data_mode", default 0 = the data of the model everywhere).
+    //   1: all bins 0;  2: about half of the viewgrams (TOF bin, segment, view) entirely 0 (divide_and_truncate and
+    //   accumulate_loglikelihood take their "small value" from the maximum of each viewgram: here it is 0);
+    //   3: exactly one non-zero bin.  The kept values are those of the model, so the documented thresholds are not hit
+    //   unintentionally (y/ybar <= 3 as before).
+    x.data_mode = c.value("data_mode", 0);
+    if (x.data_mode == 1)
+      std::fill(x.y.begin(), x.y.end(), 0.);
+    else if (x.data_mode == 2)
+      {
+        vf::SplitMix gm(c["data_seed"].get<uint64_t>() ^ 0x5eed0d47aULL);
+        std::vector<char> keep(std::size_t(x.num_vg), 0);
+        for (char& k : keep)
+          k = gm.unit() < 0.5 ? 1 : 0;
+        for (std::size_t b = 0; b < nb; ++b)
+          if (!keep[std::size_t(x.vgid[b])])
+            x.y[b] = 0.;
+      }
+    else if (x.data_mode == 3)
+      {
+        vf::SplitMix gm(c["data_seed"].get<uint64_t>() ^ 0x5eed0d47aULL);
+        const std::size_t start = std::size_t(gm.unit() * double(nb)) % std::max<std::size_t>(nb, 1);
+        std::size_t keep = nb;
+        for (std::size_t k = 0; k < nb && keep == nb; ++k)
+          if (x.y[(start + k) % nb] > 0)
+            keep = (start + k) % nb;
+        for (std::size_t b = 0; b < nb; ++b)
+          if (b != keep)
+            x.y[b] = 0.;
       }
     x.y_pd.reset(new ProjDataInMemory(exam, x.pdi, false));
     x.P.vec_to_projdata(*x.y_pd, x.y);
@@ -1776,6 +1848,26 @@ check(const json& c)
   stats().cls(x.N == 1 ? "num_subsets=1" : (x.pdi->get_num_views() % x.N == 0 ? "num_subsets>1 divides num_views" : "num_subsets does not divide num_views"));
   if (x.prior_kind)
     stats().cls("quadratic prior");
+  if (x.prior_kind && x.beta == 0)
+    stats().cls("prior with penalisation factor 0");
+  if (x.image_zero_frac > 0)
+    stats().cls(x.image_zero_frac >= 1 ? "image: all voxels exactly 0 (additive term present)" : "image: some voxels exactly 0");
+  if (x.additive && x.add_zero_frac > 0)
+    stats().cls(x.add_zero_frac >= 1 ? "additive term present but 0 everywhere" : "additive term: some bins exactly 0");
+  if (x.norm_wide)
+    stats().cls("normalisation data with more segments than the emission data");
+  if (c.value("dir_zero_frac", 0.) >= 0.9)
+    stats().cls(c.value("dir_zero_frac", 0.) >= 1 ? "Hessian direction: all voxels 0" : "Hessian direction: almost all voxels 0");
+  if (x.data_mode)
+    stats().cls(x.data_mode == 1 ? "data: all bins 0" : x.data_mode == 2 ? "data: whole viewgrams 0" : "data: one non-zero bin");
+  {
+    long zero_mean = 0;
+    for (std::size_t b = 0; b < x.y.size(); ++b)
+      if (x.owner[b] >= 0 && !x.z[b] && x.fl[b] + x.a[b] == 0)
+        ++zero_mean;
+    if (zero_mean)
+      stats().cls("some processed bins have model mean exactly 0");
+  }
   if (sens_source == 1)
     stats().cls("sensitivities read from file (recompute_sensitivity=false)");
   if (c["threshold_class"].get<bool>())
@@ -2030,6 +2122,20 @@ json
 gen(Src& s, int size)
 {
   json c = gen_config(s, size, forced().value("force_tof", -1));
+  // norm data with MORE segments than the emission data (accepted by BinNormalisationFromProjData::set_up): a fifth of the
+  // untrimmed 3D configurations with norm data get their emission data trimmed to fewer segments (only with subset
+  // sensitivities on: then every num_subsets stays legal whatever the segment range), the norm data keep all segments
+  if (c["norm"].get<int>() > 0 && c["use_subset_sens"].get<bool>() && c["pdi"]["trim"].empty() && s.chance(1, 5))
+    {
+      const int full_max = vg::make_pdi(vg::make_scanner(c["scanner"]), c["pdi"])->get_max_segment_num();
+      if (full_max >= 1)
+        {
+          c["pdi"]["trim"] = json::object();
+          c["pdi"]["trim"]["max_seg"] = int(s.range(0, full_max - 1));
+          c["pdi"]["trim"]["tang_cut"] = 0;
+          c["norm_wide"] = true;
+        }
+    }
   // ops: a random order of first use of the six kinds of request, then further requests (also all-subsets forms)
   std::vector<int> kinds = { 0, 1, 2, 3, 4, 5 };
   json ops = json::array();
@@ -2064,6 +2170,29 @@ gen(Src& s, int size)
   c["ops"] = ops;
   // "convention: if -1, use get_max_segment_num()": half of the cases hand the -1 itself to the setter
   c["ms_literal"] = s.coin();
+  // ---- value domains at their boundaries (statement: "any non-negative image, measured data, additive term"): exact
+  //      zeros in the image and in the additive term, degenerate data, a prior with penalisation factor 0.
+  //      Drawn here (not in gen_config) so that the fixed corner histories and the 720-order configurations stay as they were.
+  {
+    double izf = s.pick(std::vector<double>{ 0., 0., 0., 0., 0.3, 0.3, 0.9, 1. });
+    double azf = s.pick(std::vector<double>{ 0., 0., 0., 0.3, 0.3, 1. });
+    // an all-zero image is only combined with an additive term that is positive in most bins: with model mean 0
+    // everywhere the statement ("wherever ybar_b > 0") says nothing
+    if (izf >= 1. && !c["additive"].get<bool>())
+      izf = 0.9;
+    if (izf >= 1. && azf >= 1.)
+      azf = 0.3;
+    c["image_zero_frac"] = izf;
+    c["add_zero_frac"] = azf;
+    c["data_mode"] = int(s.pick(std::vector<int>{ 0, 0, 0, 0, 0, 0, 1, 2, 2, 3 }));
+    // the direction v of the Hessian products: (almost) all voxels 0 -> whole numerator viewgrams are 0
+    if (s.chance(1, 6))
+      c["dir_zero_frac"] = s.coin() ? 1. : 0.95;
+    // norm data with more segments than the (trimmed) emission data
+    c["norm_wide"] = s.chance(3, 4) || c.value("norm_wide", false);
+    if (c["prior"].get<int>() == 1 && s.chance(1, 6))
+      c["beta"] = 0.; // GeneralisedPrior: penalisation factor 0 = "no prior" (the prior's share is 0)
+  }
   // object histories: a little less than half of the generated cases (the others are the fresh-object cases)
   const int hist_pct = forced().value("hist_pct", 45);
   if (int(s.range(0, 99)) < hist_pct)
@@ -2151,6 +2280,7 @@ gen_previous_stage(Src& s, const json& cur, const shared_ptr<Scanner>& sc, const
             prev["additive"] = true;
             prev["add_seed"] = s.seed64();
             prev["add_scale"] = s.pick(std::vector<double>{ 0.1, 1., 1., 10. });
+            prev["add_zero_frac"] = s.pick(std::vector<double>{ 0., 0., 0.3 });
           }
         break;
       case HK_NORM:
@@ -2159,6 +2289,7 @@ gen_previous_stage(Src& s, const json& cur, const shared_ptr<Scanner>& sc, const
         break;
       case HK_DATA:
         prev["data_seed"] = s.seed64();
+        prev["data_mode"] = int(s.pick(std::vector<int>{ 0, 0, 0, 1, 2, 3 }));
         break;
       case HK_GEOM:
         { // other projection data geometry on the same scanner, same axial structure (span, max ring difference)
@@ -2218,7 +2349,7 @@ gen_previous_stage(Src& s, const json& cur, const shared_ptr<Scanner>& sc, const
         else
           {
             prev["prior"] = 1;
-            prev["beta"] = s.pick(std::vector<double>{ 0.1, 1., 10. });
+            prev["beta"] = s.pick(std::vector<double>{ 0.1, 1., 10., 0. });
           }
         break;
       case HK_SENS:
@@ -2233,6 +2364,9 @@ gen_previous_stage(Src& s, const json& cur, const shared_ptr<Scanner>& sc, const
         break;
       }
   // ---- keep the stage legal
+  // (an all-zero image only together with an additive term that is positive somewhere, see gen())
+  if (prev.value("image_zero_frac", 0.) >= 1. && (!prev["additive"].get<bool>() || prev.value("add_zero_frac", 0.) >= 1.))
+    prev["image_zero_frac"] = 0.9;
   shared_ptr<ProjDataInfo> pdi = vg::make_pdi(sc, prev["pdi"]);
   const bool tof = pdi->is_tof_data();
   if (!tof)
